@@ -23,18 +23,19 @@ Section WithOps.
   Context {FO : FloatOps}.
 
   (* sub-operation 3: both sides of every integer-exactness fact, computed in f32 *)
-  Definition fie_probe (a b : Z) : res (list Z) :=
+  Definition fie_probe (p : profile) (a b : Z) : res (list Z) :=
     let fa := f_of_usize a in
     let fb := f_of_usize b in
-    let! sq := libm2 FN_POWF (fsub fa fb) f_two in
-    Ok [ sq; f_of_usize ((a - b) * (a - b));
+    let! sq := sq_term p (fsub fa fb) in
+    let! pw := libm2 FN_POWF (fsub fa fb) f_two in
+    Ok [ sq; pw; fmul (fsub fa fb) (fsub fa fb); f_of_usize ((a - b) * (a - b));
          fadd fa fb; f_of_usize (a + b);
          sx_cmp3 (fcmp fa fb);
          (if fle (fsqrt fa) (fsqrt fb) then 1 else 0);
          (if fle (fsqrt fa) fb then 1 else 0);
          fsqrt (f_of_usize (a * a)) ].
 
-  Definition topo_run (op : Z) (args : list sx) : option sx :=
+  Definition topo_run (p : profile) (op : Z) (args : list sx) : option sx :=
     match op, args with
     | 0, [SZ index; SZ nedge; SZ ndim] =>
         if all_usize [index; nedge; ndim]
@@ -43,24 +44,24 @@ Section WithOps.
         match un_zlist l1, un_zlist l2 with
         | Some l1, Some l2 =>
             if all_usize l1 && all_usize l2
-            then Some (sx_res (sx_opt SZ) (euclidean_distance l1 l2)) else None
+            then Some (sx_res (sx_opt SZ) (euclidean_distance p l1 l2)) else None
         | _, _ => None
         end
     | 2, [SZ ntotal; SZ ndim; SZ index; SZ r] =>
         if all_usize [ntotal; ndim; index] && is_u32 r
-        then Some (sx_res (sx_opt (sx_list SZ)) (find_neighbors ntotal ndim index r)) else None
+        then Some (sx_res (sx_opt (sx_list SZ)) (find_neighbors p ntotal ndim index r)) else None
     | 3, [SZ a; SZ b] =>
-        if all_usize [a; b; a + b; a * a] then Some (sx_res (sx_list SZ) (fie_probe a b)) else None
+        if all_usize [a; b; a + b; a * a] then Some (sx_res (sx_list SZ) (fie_probe p a b)) else None
     | 4, [SZ ntotal; SZ ndim; SZ i; SZ j; SZ r] =>
         if all_usize [ntotal; ndim; i; j] && is_u32 r
         then Some (sx_res (sx_pair (sx_opt (sx_list SZ)) (sx_opt (sx_list SZ)))
-                    (let! a := find_neighbors ntotal ndim i r in
-                     let! b := find_neighbors ntotal ndim j r in Ok (a, b))) else None
+                    (let! a := find_neighbors p ntotal ndim i r in
+                     let! b := find_neighbors p ntotal ndim j r in Ok (a, b))) else None
     | 5, [SZ ntotal; SZ ndim; SZ i; SZ r1; SZ r2] =>
         if all_usize [ntotal; ndim; i] && is_u32 r1 && is_u32 r2
         then Some (sx_res (sx_pair (sx_opt (sx_list SZ)) (sx_opt (sx_list SZ)))
-                    (let! a := find_neighbors ntotal ndim i r1 in
-                     let! b := find_neighbors ntotal ndim i r2 in Ok (a, b))) else None
+                    (let! a := find_neighbors p ntotal ndim i r1 in
+                     let! b := find_neighbors p ntotal ndim i r2 in Ok (a, b))) else None
     | _, _ => None
     end.
 
@@ -121,10 +122,11 @@ Section WithOps.
         else Some (SZ 2)
     | 3, [SZ a; SZ b] =>
         match observed with
-        | SL [SZ 0; SL [SZ sq; SZ sq'; SZ ad; SZ ad'; SZ c; SZ sm; SZ wi; SZ rt]] =>
+        | SL [SZ 0; SL [SZ sq; SZ pw; SZ ml; SZ sq'; SZ ad; SZ ad'; SZ c; SZ sm; SZ wi; SZ rt]] =>
             if (a <? two24) && (b <? two24) then
               Some (sx_bool
-                ((if (a - b) * (a - b) <? two24 then sq =? sq' else true)          (* fie_sq *)
+                ((if (a - b) * (a - b) <? two24
+                  then (sq =? sq') && (pw =? sq') && (ml =? sq') else true)        (* fie_sq_powf, fie_sq_mul *)
                  && (if a + b <? two24 then ad =? ad' else true)                   (* fie_add *)
                  && (c =? sx_cmp3 (Some (a ?= b)))                                 (* fie_cmp_int *)
                  && (if a <=? b then sm =? 1 else true)                            (* fie_sqrt_mono *)
@@ -161,11 +163,11 @@ Section WithOps.
     end.
 End WithOps.
 
-Definition un_topo_case (s : sx) : option (list (Z * Z * Z) * Z * list sx) :=
+Definition un_topo_case (s : sx) : option (profile * list (Z * Z * Z) * Z * list sx) :=
   match s with
   | SL (SZ p :: tab :: SZ op :: args) =>
       match un_libm tab with
-      | Some tab => if (p =? 0) || (p =? 1) then Some (tab, op, args) else None
+      | Some tab => if p =? 0 then Some (Debug, tab, op, args) else if p =? 1 then Some (Release, tab, op, args) else None
       | None => None
       end
   | _ => None
@@ -173,8 +175,8 @@ Definition un_topo_case (s : sx) : option (list (Z * Z * Z) * Z * list sx) :=
 
 Definition pm_topo (s : sx) : sx :=
   match un_topo_case s with
-  | Some (tab, op, args) =>
-      match @topo_run (flocq_ops tab) op args with Some r => r | None => sx_bad end
+  | Some (p, tab, op, args) =>
+      match @topo_run (flocq_ops tab) p op args with Some r => r | None => sx_bad end
   | None => sx_bad
   end.
 
@@ -182,11 +184,8 @@ Definition pm_topo_check (s : sx) : sx :=
   match s with
   | SL [c; observed] =>
       match un_topo_case c with
-      | Some (tab, op, args) =>
-          match @topo_run (flocq_ops tab) op args with
-          | None => sx_bad
-          | Some _ => match @topo_check (flocq_ops tab) op args observed with Some r => r | None => sx_bad end
-          end
+      | Some (_, tab, op, args) =>
+          match @topo_check (flocq_ops tab) op args observed with Some r => r | None => sx_bad end
       | None => sx_bad
       end
   | _ => sx_bad
@@ -197,9 +196,9 @@ Definition pm_topo_check (s : sx) : sx :=
    find_neighbors reports None (C20_known_large_ndim). *)
 Definition pm_topo_known (s : sx) : sx :=
   match un_topo_case s with
-  | Some (_, 2, [SZ ntotal; SZ ndim; _; _])
-  | Some (_, 4, [SZ ntotal; SZ ndim; _; _; _])
-  | Some (_, 5, [SZ ntotal; SZ ndim; _; _; _]) =>
+  | Some (_, _, 2, [SZ ntotal; SZ ndim; _; _])
+  | Some (_, _, 4, [SZ ntotal; SZ ndim; _; _; _])
+  | Some (_, _, 5, [SZ ntotal; SZ ndim; _; _; _]) =>
       SZ (if (2 <=? ntotal) && (65 <=? ndim) then 1 else 0)
   | _ => SZ 0
   end.
